@@ -201,10 +201,16 @@ func runCacheHistory(env *fw.Env, c CacheCase, withFaults bool, judgeMinimizeLat
 				if !fired && o.e != nil && readFailed && c.Cfg.Shared && isCancelled(o.e) {
 					return fw.Failf(SigSharedReplaysReadError, "%s clean Check(%s) failed with %v after an earlier request's datastore read had failed or been cancelled (shared iterators on)\n%s", what, op.Req, o.e, semkit.Describe(cur))
 				}
-				if fired && isCancelled(o.e) {
+				if fired {
+					// the request whose own context was cancelled inside a read: whatever it returns goes to a
+					// caller that has gone away; the property is about what LATER requests are served
 					faultSeen = true
 					faultedInside++
-					classes = append(classes, "faulted-request-failed")
+					if isCancelled(o.e) {
+						classes = append(classes, "faulted-request-failed")
+					} else {
+						classes = append(classes, "faulted-request-answered")
+					}
 					continue
 				}
 				if op.HC || judgeMinimizeLatency || !written {
@@ -215,6 +221,13 @@ func runCacheHistory(env *fw.Env, c CacheCase, withFaults bool, judgeMinimizeLat
 						ba, be := checkWithConsistency(nc, context.Background(), storeID, modelID, op.Req, true)
 						// the weighted engine's answer for such subjects also varies with the strategy its planner
 						// picks (recorded finding under C03), so an answer that satisfies the reference is accepted too
+						condErr := func(e error) bool { return e != nil && containsAny(e.Error(), "failed to evaluate relationship condition") }
+						if condErr(be) || condErr(o.e) {
+							// which unevaluable tuple the engine meets first depends on evaluation order; error versus
+							// answer under an unevaluable condition is C01's business, not the cache's
+							classes = append(classes, "v2-nonobject-unevaluable-unjudged")
+							continue
+						}
 						if ((be != nil) != (o.e != nil) || (be == nil && ba != o.a)) && judgeCheckAgainst(cur, op.Req, o.a, o.e, what) != nil {
 							return fw.Failf("", "%s weighted-engine Check(%s) answered %v (err %v) with caches, %v (err %v) without\n%s", what, op.Req, o.a, o.e, ba, be, semkit.Describe(cur))
 						}
